@@ -23,6 +23,10 @@ CLAIMED = {
             "For EVERY int64 value (bit-vectors: magnitudes below, at and above every packing limit are interior points) and small row counts the grouping primitives return exactly the partition given by element-wise comparison; "
             "the bit packing of hashable_rows is shown injective on exactly the range the code's own check admits, the np.void fallback elsewhere. Bounded by rows (3-4), columns (1-5), elements (4-6).",
             TRUSTED + "np.void/structured views compare like row tuples (numpy contract, stubbed by RowKey); sort order of groups is not part of the claim; unique_bincount values concretised (< 5); larger arrays not claimed."),
+    "C13": ("other", "DESIGN.md#c13", "symbolic execution of trimesh.voxel.runlength on z3 Int run counts with a universally quantified dense position (prefix-sum oracle); dense-domain runs enumerated by solver-driven forks; VoxelGrid index maps in linear real/int arithmetic",
+            "Run-length codecs: for every sequence of up to 5 runs with counts of ANY magnitude (up to a stated multiple of the dtype maximum where the code builds repeat lists) the converted encoding decodes to the same dense array at every position (one forall-position obligation per path). "
+            "Encoding classes and dense round trips: every bool array of 4-6 cells x every mask, through each read API separately. VoxelGrid: every translation and in-cell offset, scale from a rational catalogue.",
+            TRUSTED + "counts non-negative; the binvox file body is not claimed (C-level codecs, cf. C08); encoding classes only on 2x2x1 arrays; five genuine defects of the lazy encoding views are listed in known_findings.json."),
 }
 
 NOT_APPLICABLE = {
